@@ -532,7 +532,7 @@ class C29(dst.Check):
         s = {'sim_seconds': 0.0, 'calls_checked': len(res['checked']), 'probe_refused': len(res['refused']),
              'probe_count_lt_np': 0, 'probe_count_zero': 0, 'probe_np_not_pow2': 0, 'probe_in_place': 0,
              'probe_large_count': 0, 'probe_nonblocking': 0, 'probe_deferred_wait': 0, 'probe_derived_type': 0,
-             'probe_np1': 0, 'probe_mixed_types': 0, 'probe_late_rank': 0}
+             'probe_np1': 0, 'probe_late_rank': 0}
         ts = [v[1] for v in res['T'].values()]
         s['sim_seconds'] = max(ts) if ts else 0.0
         for i in res['checked']:
@@ -551,8 +551,11 @@ class C29(dst.Check):
             s['probe_nonblocking'] += c['nb']
             s['probe_deferred_wait'] += 1 if c.get('defer') else 0
             s['probe_derived_type'] += c['sdt'] in ('c3', 'v2', 'c2') or c['rdt'] in ('c3', 'v2', 'c2')
-            s['probe_mixed_types'] += c['sdt'] != c['rdt']
             s['probe_late_rank'] += max(c['skew']) >= 200
+        if 'suspect' in plan:
+            s['plan_%s:%s' % tuple(plan['suspect'])] = 1
+            if res['viol']:
+                s['failed_%s:%s' % tuple(plan['suspect'])] = 1
         for coll, algo, _ in res['refused']:
             s['refused_%s:%s' % (coll, algo)] = s.get('refused_%s:%s' % (coll, algo), 0) + 1
         return s
@@ -573,12 +576,15 @@ class C29(dst.Check):
             hit = [a for a in names if st.get('cov_%s:%s' % (coll, a), 0) > 0]
             cov[coll] = dict(algorithms=len(names), covered=len(hit),
                              min_calls=min([st.get('cov_%s:%s' % (coll, a), 0) for a in names] or [0]))
+            cov[coll]['min_plans'] = min([st.get('plan_%s:%s' % (coll, a), 0) for a in names] or [0])
             for a in names:
-                n = st.get('cov_%s:%s' % (coll, a), 0) + st.get('refused_%s:%s' % (coll, a), 0)
+                n = st.get('plan_%s:%s' % (coll, a), 0)      # plans whose suspect is this pair (each has >= 1 suspect call)
                 if n < 2:
                     missing.append('%s:%s(%d)' % (coll, a, n))
         refused = {k[8:]: v for k, v in st.items() if k.startswith('refused_')}
-        return dict(algorithm_coverage=cov, pairs_touched_less_than_twice=missing, refused_counts=refused)
+        failed = {k[7:]: v for k, v in st.items() if k.startswith('failed_')}
+        return dict(algorithm_coverage=cov, pairs_touched_less_than_twice=missing, refused_counts=refused,
+                    plans_with_violation_per_suspect=failed)
 
     # ---- shrinking ----------------------------------------------------------------------------------------
     def _known(self):
